@@ -1,6 +1,6 @@
 import sys, time
 from pyvc.contract import REG
-import contracts.all, contracts.harness_general, contracts.harness_chunk
+import contracts.all, contracts.harness_general, contracts.harness_chunk, contracts.harness_pulse
 from pyvc import harness as H
 names = sys.argv[1:] or [k for k,c in REG.contracts.items() if c.harness]
 for key in names:
